@@ -297,7 +297,7 @@ example : ∃ s, run {} closingBusy = some s ∧ s.shuttingDown = true ∧ s.don
   ⟨_, rfl, rfl, rfl, rfl, rfl, rfl, rfl, rfl⟩
 
 /-- **close_terminates is not vacuous**: all hypotheses hold for the run `connPart` from the reachable closing
-state `closingBusy ++ envPart`, whose measure is 6; the run is maximal and the obligations hold at its end. -/
+state `closingBusy ++ envPart`, whose measure `mu` is 8; the run is maximal and the obligations hold at its end. -/
 theorem close_terminates_nonvacuous :
     ∃ s s', run {} (closingBusy ++ envPart) = some s ∧ s.shuttingDown = true ∧ s.done = false ∧
       (∀ l ∈ connPart, l.internal = true) ∧ run s connPart = some s' ∧ Maximal s' ∧ Obligations s' ∧
